@@ -410,7 +410,7 @@ def qpow(q, power):
     :SymPy: supported for ``q`` but not ``power``.
     """
     q = base.getvector(q, 4)
-    if not isinstance(power, int):
+    if not isinstance(power, (int, np.integer)):
         raise ValueError("Power must be an integer")
     qr = eye()
     for _ in range(0, abs(power)):
